@@ -167,17 +167,17 @@ ADDENDA = {
     'C08': 'Also: the complete-ensemble result and noise matrix against the one-process run for every schedule; unordered maps are given '
            'an explicit out-of-order feasible completion order; one ensemble of 1500 (thorough: 3000) members. Non-default extrema options; data scaled to 1e-12.',
     'C09': 'Also: IMFs of sifted noise (256-5000 samples); inputs in caller-owned buffers refilled in place. The public phase routine and amplitude_normalise called directly (wrapped = wrap(unwrapped); one pass = x / combined envelope of the selected interpolant).',
-    'C10': 'Also: Fortran-ordered inputs; results of earlier calls (sparse data buffers included) must stay unchanged. Calls with `mode` omitted; a bin set that starts below zero.',
+    'C10': 'Also: Fortran-ordered inputs; results of earlier calls (sparse data buffers included) must stay unchanged. Calls with `mode` omitted; a bin set that starts below zero. User-supplied irregular edges: every strictly increasing edge set of 3..7 (thorough 3..9) edges from the grid 0..10, samples on / just below / between all grid values, three layouts.',
     'C11': 'Also: 300 x 300, 120 x 600 and 20 x 15 bin grids; results of earlier calls must stay unchanged. Defaults omitted, options by position, an exhaustive small family with NaN / inf frequencies over bins that contain 0.',
     'C12': 'Also: recordings beyond 2^17 samples with wraps exactly on powers of two; phases handed over in a caller-owned buffer '
-           'refilled in place (two consecutive calls on one object). The deprecated alias, the positional form, an all-True mask vector, a wrap-free column placed first.',
+           'refilled in place (two consecutive calls on one object). The deprecated alias, the positional form, an all-True mask vector, a wrap-free column placed first. At the larger scope every recording is followed by a wrap-free series of the same shape and by two-column inputs whose wrap-free column changes place (8 more calls per instance).',
     'C13': 'Also: 5000-sample cycles with one plateau / reversal exactly on a 2^k sample index; tolerances less than 1e-6 apart used one after the other. The alias with masks; the phase as second column of a two-column array.',
     'C14': 'Also: alignment of cycles with one internal phase step of 3.3-4.2 rad; label / value arrays in caller-owned buffers refilled in place; '
            'results of earlier calls unchanged. Values with trailing dimensions in bin_by_phase; pre-built iterators (either mode) in place of the container.',
     'C15': 'Alphabet now 30 operations (conditions on chain-level metrics, stored chain metrics re-added under another name); the '
            'observation queries are issued after every step of a history. The container\'s three iterators and the per-condition columns (ret_separate) observed after every transition; a root built with the constructor\'s mode keyword.',
-    'C16': 'Also: cycle vectors in a caller-owned buffer refilled in place; +inf / -inf among the projected values. [n x 1] cycle vectors; the IterateCycles class over cycles / subset / chains; primed buffers.',
-    'C17': 'Also: the 1-feature family on a 0.1-grid with bounds 1.0 / 0.1 (distances one rounding step from the bound) and on a 1.7e9 offset. Positional and column call forms.',
+    'C16': 'Also: cycle vectors in a caller-owned buffer refilled in place; +inf / -inf among the projected values. [n x 1] cycle vectors; the IterateCycles class over cycles / subset / chains; primed buffers. Medium scope: 130..1030 (thorough ..4100) cycles x 7 periodic selections, all six projections against a vectorised reference.',
+    'C17': 'Also: the 1-feature family on a 0.1-grid with bounds 1.0 / 0.1 (distances one rounding step from the bound) and on a 1.7e9 offset. Positional and column call forms. The bound 0 (every row omitted) in every small case.',
     'C18': 'Also: the configuration is used (unpacked and through get_func) in every state of every history and must be unchanged by use; '
            'a second root starts from array-valued mask options; groups written back as equal copies are distinct histories. update() with key paths; a tuple nested in a tuple among the values.',
     'C19': 'Also: every history of 3 read-only queries (12-query alphabet) on one cycle container, each answer against a fresh container. Iterator routes with route equivalence; length mismatches with container / iterator forms; [n x 1 x 1] input to the transforms; thorough: query histories of depth 4.',
